@@ -79,7 +79,7 @@ BUDGET_S = {"quick": 90, "thorough": 700}
 FLOORS = {"soup.strings": 330, "soup.parses": 4700, "soup.searches": 17000, "soup.inband_errors": 650,
           "soup.config.default": 330, "soup.config.allplugins": 330, "soup.config.dismax": 330,
           "soup.config.simple": 330, "soup.config.multi": 330, "soup.config.or": 330,
-          "lang.cases": 400, "lang.nontrivial": 230, "lang.agree": 400, "simple.cases": 55}
+          "lang.cases": 400, "lang.nontrivial": 230, "lang.agree": 400, "simple.cases": 55, "lang.index2_evals": 400}
 
 VOCAB = ["alfa", "bravo", "charlie", "delta", "echo", "foxtrot", "golf", "hotel", "india", "juliet",
          "kilo", "lima", "tomato", "victor", "stop", "orbit", "band", "notes"]
@@ -165,6 +165,7 @@ def build_world(ctx):
         w.delete_by_term("id", str(i))
     w.commit(merge=False)
     W = World()
+    W.deleted2 = frozenset(str(i) for i in (1, 2, 19, 20, 21, 35, 47))
     W.schema, W.ix, W.docs = schema, ix, docs
     W.searcher = ix.searcher()
     W.searcher2 = ix2.searcher()
@@ -1073,6 +1074,7 @@ def lang_eval(W, name, tree):
             raise
         return dict(res, status="parse-exc", mech=mech, detail=traceback.format_exc()[-2500:])
     res["parsed"] = repr(q)[:600]
+    res["_q"] = q
     try:
         got = engine_docs(W, q)
     except Exception as e:  # noqa
@@ -1232,6 +1234,21 @@ def lang_case(ctx, rng, W, tree=None):
         ctx.count("lang.agree")
         if r["model"]:
             ctx.count("lang.agree_model")
+            if not popB:
+                # "on any index": the same parsed query on the three-segment copy of the corpus with deleted documents must
+                # select the reading's documents minus the deleted ones (collector path and docs_for_query path)
+                s2 = W.searcher2
+                exp2 = frozenset(expected) - W.deleted2
+                for path, fn in (("search", lambda: frozenset(h["id"] for h in s2.search(r["_q"], limit=None))),
+                                 ("docs_for_query", lambda: frozenset(s2.stored_fields(dn)["id"] for dn in s2.docs_for_query(r["_q"])))):
+                    ctx.count("lang.index2_evals")
+                    ok2, got2 = ctx.guard("language.index2", dict(wit, index="3 segments, 7 documents deleted", path=path), fn)
+                    if ok2 and got2 != exp2:
+                        ctx.fail("language.index2", "segments+deletions:%s:%s" % (path, _culprit(tree)),
+                                 dict(wit, index="3 segments, 7 documents deleted", path=path, expected=sorted(exp2, key=int)[:40],
+                                      missing=sorted(exp2 - got2, key=int)[:20], extra=sorted(got2 - exp2, key=int)[:20]),
+                                 "expected %d docs, got %d" % (len(exp2), len(got2)))
+                        break
         else:
             ctx.count("lang.engine_vs_model")
             if popB:
